@@ -111,16 +111,16 @@ func (its *OperationID) ToJSON() interface{} {
 
 // Compare compares two operationIDs.
 func (its *OperationID) Compare(other *OperationID) int {
-	retEra := int32(its.Era - other.Era)
-	if retEra > 0 {
+	// (compared directly: the sign of a difference wraps once the values are 2^31 (era) or 2^63 (clock) apart, and the
+	// comparison is then neither antisymmetric nor transitive)
+	if its.Era > other.Era {
 		return 1
-	} else if retEra < 0 {
+	} else if its.Era < other.Era {
 		return -1
 	}
-	var diff = int64(its.Lamport - other.Lamport)
-	if diff > 0 {
+	if its.Lamport > other.Lamport {
 		return 1
-	} else if diff < 0 {
+	} else if its.Lamport < other.Lamport {
 		return -1
 	}
 	return strings.Compare(its.CUID, other.CUID)
